@@ -57,7 +57,7 @@ def distances(r):
 
 def plan(tier, seed):
     rs = resolutions(tier, seed)
-    shards = [(r, fp) for r in rs for fp in range(4)] + [("env", r) for r in (1, 7, 192, 480)] + [("order", r, fp) for r in (2, 7, 192) for fp in range(4)] + [("headers", k) for k in range(8)] + [("cross", k) for k in range(4)]
+    shards = [(r, fp) for r in rs for fp in range(4)] + [("env", r) for r in (1, 7, 192, 480)] + [("order", r, fp) for r in (2, 7, 192) for fp in range(4)] + [("headers", k) for k in range(8)] + [("cross", k) for k in range(4)] + [("lonetap", r) for r in (1, 7, 192, 480)]
     return dict(shards=shards, bounds=dict(resolutions=(rs if len(rs) < 50 else "1..400 + %r" % [r for r in rs if r > 400])), budget_s=1500 if tier == "thorough" else 300)
 
 
@@ -243,6 +243,39 @@ def _cross_shard(ctx, k):
                         e1.report(ctx, "decision-after-other-track", text, PROBE_SRC, [exp], got if len(str(got)) < 300 else str(got)[:300], "resolution %d (threshold %d) parsed right after a track at resolution %d (threshold %d); first note flags %r, distance %d, flags %r: first difference at note %d - note that the replay needs the earlier parse" % (r2, t2, r1, t1, first_flags, d, fb, kk), extra_case=dict(warm=warm))
 
 
+LONE_PROBE = '''
+def probe(c):
+    from chartparse.instrument import Instrument, Difficulty
+    return [[e.tick, e.hopo_state.name] for e in c[Instrument.GUITAR][Difficulty.EXPERT].note_events if e.tick in TAP_TICKS]
+'''
+
+
+def _lone_tap_shard(ctx, r):
+    """A tick whose ONLY line is the tap flag line (no lane line, no open-note line). Which lanes such a note has is
+    outside the statement (DESIGN.md 3.1) - but 'a note flagged tap is a tap' has no condition: IF the tick yields
+    a note event, that event is a tap, at every distance from its predecessor and after every kind of predecessor."""
+    thr = (r + 1) // 3
+    for d in sorted({1, max(1, thr - 1), max(1, thr), thr + 1, 3 * thr + 5}):
+        for L in (0, 5):
+            body, taps, t = ["0 = N 0 0"], [], 10 * r + 50
+            for a in COMBOS:
+                for fa in FLAGS:
+                    body += note_lines(t, a, fa) + ["%d = N 6 %d" % (t + d, L)]
+                    taps.append(t + d)
+                    t += d + 10 * r + 50
+            text = mk(res=r, tracks={"ExpertSingle": body})
+            src = "TAP_TICKS = set(%r)\n" % (taps,) + LONE_PROBE.strip("\n")
+            got = e1.run_probe(e1.compile_probe(src), text)
+            ctx.node()
+            ctx.case(("lonetap", r, d, L), sample=lambda: dict(resolution=r, distance=d, flag_length=L, lone_tap_ticks=len(taps)))
+            ctx.evaluations += len(taps)
+            ctx.hist["lone_tap_flag_ticks"] += len(taps)
+            ok = isinstance(got, list) and got[:1] != ["raises"] and all(st == "TAP" for _, st in got)
+            if not ok:
+                bad = got if not isinstance(got, list) or got[:1] == ["raises"] else [x for x in got if x[1] != "TAP"][:3]
+                e1.report(ctx, "decision", text, src, [[[tk, "TAP"] for tk in taps], []], got if len(str(got)) < 300 else str(got)[:300], "resolution %d: a tick carrying only the tap flag line (length field %d), %d ticks after its predecessor, yields a note that is not a tap: %r" % (r, L, d, bad))
+
+
 def run_shard(shard, ctx):
     if shard[0] == "cross":
         return _cross_shard(ctx, shard[1])
@@ -250,6 +283,8 @@ def run_shard(shard, ctx):
         return _header_shard(ctx, shard[1])
     if shard[0] == "env":
         return _env_shard(ctx, shard[1])
+    if shard[0] == "lonetap":
+        return _lone_tap_shard(ctx, shard[1])
     if shard[0] == "order":
         return _order_shard(ctx, shard[1], shard[2])
     r, fpi = shard
